@@ -225,7 +225,7 @@ def _domops(pid):
 _DOM_RULE = ('histories of insert / destroy / transfer_within / transfer / clone_within / clone_into_external / clone_multiple_into_external over 1-3 real WeakDoms, '
              'arguments drawn within the documented preconditions (moving an instance under its own descendant is excluded: no tree can represent it; the list given to clone_multiple_into_external may repeat an '
              'instance or name an instance together with a descendant - nothing documented forbids it - and then any of the copies counts as the corresponding copy of a Ref target); '
-             'nodes carry 0-2 outward Ref properties, a self Ref, dangling Refs, pooled UniqueIds; one inserted builder in six is created on a freshly started thread, through any of the public constructors (new / with_property_capacity / empty + with_class / set_class); builders are also left unnamed (new(class) names the instance after that class), re-classed after new (with_class changes the class only), made by empty() or named by set_name; one node in six carries a Bool property named Archivable (cloning copies it like anything else); ids are compared field by field by the monitor (the type's == / Hash are code under test) and the pool holds ids that share one negative random part; half of the random histories MIRROR referents: all DOM roots are built with one chosen referent and one inserted subtree root in four gets the referent of a node of another DOM (a Ref designates whoever holds its value in the DOM at hand); one history in forty opens with a size scenario (two folders of 65-130 children joined by 65-130 distinct Refs, cloned within and across DOMs; or 460 id-carrying children, a parentless clone and a mass destroy); now and then a DOM goes through '
+             'nodes carry 0-2 outward Ref properties, a self Ref, dangling Refs, pooled UniqueIds; one inserted builder in six is created on a freshly started thread, through any of the public constructors (new / with_property_capacity / empty + with_class / set_class); builders are also left unnamed (new(class) names the instance after that class), re-classed after new (with_class changes the class only), made by empty() or named by set_name; one node in six carries a Bool property named Archivable (cloning copies it like anything else); ids are compared field by field by the monitor (== and Hash of the type are code under test) and the pool holds ids that share one negative random part; half of the random histories MIRROR referents: all DOM roots are built with one chosen referent and one inserted subtree root in four gets the referent of a node of another DOM (a Ref designates whoever holds its value in the DOM at hand); one history in forty opens with a size scenario (two folders of 65-130 children joined by 65-130 distinct Refs, cloned within and across DOMs; or 460 id-carrying children, a parentless clone and a mass destroy); now and then a DOM goes through '
              'into_raw + from_raw + reserve (nothing observable may change; the rebuilt id bookkeeping is checked through the hook); '
              'random histories of 20-400 operations (few live nodes, many operations) plus the exhaustive enumeration of every history in the small scopes '
              'listed under exhaustive_scopes (all valid argument choices at every step); after EVERY step each DOM is walked through the public API and compared '
